@@ -102,7 +102,8 @@ func FieldKeyOf(structOrPtr types.Type, idx int) FieldKey {
 	if !ok || idx >= st.NumFields() {
 		return FieldKey{TypeKey(structOrPtr), fmt.Sprintf("#%d", idx)}
 	}
-	return FieldKey{TypeKey(structOrPtr), st.Field(idx).Name()}
+	tk := TypeKey(structOrPtr)
+	return FieldKey{tk, CanonFieldName(tk, st.Field(idx).Name())}
 }
 
 // Unwrap looks through synthetic wrappers, thunks, bound-method closures and
@@ -416,16 +417,25 @@ func (g *VFG) store(addr, val ssa.Value, via ssa.Instruction) {
 func CalleeName(c ssa.CallInstruction) string {
 	cc := c.Common()
 	if cc.IsInvoke() {
-		return cc.Method.FullName()
+		return canonTypeString(cc.Method.FullName())
 	}
 	if sc := cc.StaticCallee(); sc != nil {
 		u := Unwrap(sc)
-		if u.Object() != nil {
-			if f, ok := u.Object().(*types.Func); ok {
-				return f.FullName()
+		if len(canonical) > 0 {
+			top := u
+			for top.Parent() != nil {
+				top = top.Parent()
+			}
+			if _, renamed := canonical[top]; renamed {
+				return canonString(u)
 			}
 		}
-		return u.String()
+		if u.Object() != nil {
+			if f, ok := u.Object().(*types.Func); ok {
+				return canonTypeString(f.FullName())
+			}
+		}
+		return canonTypeString(u.String())
 	}
 	if b, ok := cc.Value.(*ssa.Builtin); ok {
 		return "builtin." + b.Name()
